@@ -6,7 +6,6 @@ import (
 	"path"
 	"path/filepath"
 	"runtime"
-	"slices"
 	"strings"
 	"sync"
 	"syscall"
@@ -93,7 +92,10 @@ func Copy(ctx context.Context, srcRoot, src, dstRoot, dst string, opts ...Opt) e
 		if createdDirs, err := MkdirAll(ensureDstPath, os.FileMode(perm), ci.Chown, ci.Utime); err != nil {
 			return err
 		} else {
-			defer fixCreatedParentDirs(createdDirs, ci.Utime)
+			// stamped again when everything is written, if they are still
+			// what was created here: a later source may have replaced a
+			// directory on the way by a symlink
+			defer fixCreatedParentDirs(createdDirs, lstatAll(createdDirs), ci.Utime)
 		}
 	}
 
@@ -144,7 +146,7 @@ func Copy(ctx context.Context, srcRoot, src, dstRoot, dst string, opts ...Opt) e
 		if err != nil {
 			return err
 		}
-		defer fixCreatedParentDirs(createdDirs, ci.Utime)
+		defer fixCreatedParentDirs(createdDirs, lstatAll(createdDirs), ci.Utime)
 		if err := c.copy(ctx, srcFollowed, "", dst, false, patternmatcher.MatchInfo{}, patternmatcher.MatchInfo{}); err != nil {
 			return err
 		}
@@ -814,13 +816,24 @@ func rel(basepath, targpath string) (string, error) {
 	return filepath.Rel(basepath, targpath)
 }
 
-func fixCreatedParentDirs(dirs []string, tm *time.Time) error {
-	slices.Reverse(dirs)
-	for _, d := range dirs {
-		if tm != nil {
-			if err := Utimes(d, tm); err != nil {
-				return err
-			}
+func lstatAll(paths []string) []os.FileInfo {
+	fis := make([]os.FileInfo, len(paths))
+	for i, p := range paths {
+		fis[i], _ = os.Lstat(p)
+	}
+	return fis
+}
+
+func fixCreatedParentDirs(dirs []string, created []os.FileInfo, tm *time.Time) error {
+	if tm == nil {
+		return nil
+	}
+	for i := len(dirs) - 1; i >= 0; i-- {
+		if fi, err := os.Lstat(dirs[i]); err != nil || created[i] == nil || !os.SameFile(fi, created[i]) {
+			continue
+		}
+		if err := Utimes(dirs[i], tm); err != nil {
+			return err
 		}
 	}
 	return nil
